@@ -1,0 +1,6 @@
+//go:build !verif
+
+package comet
+
+// verifPoint is a no-op unless the package is built with the "verif" tag.
+func verifPoint(name string, args ...any) {}
